@@ -207,14 +207,17 @@ def main(argv):
             plans = [()] + [(a,) for a in atoms] + list(itertools.combinations(atoms, 2))
             if ctx.thorough:
                 plans += list(itertools.combinations(atoms, 3))
-            for fails in plans:
+            # which errno an OSError carries is one more axis of the plans that make socket() / setsockopt() / wrap_socket fail
+            plans = [(f_, "oserror") for f_ in plans] + [(f_, k_) for f_ in plans if naddr >= 2 and len(f_) <= 2 and any(a_.split(":")[0] in ("socket", "nodelay", "wrap") for a_ in f_)
+                                                       for k_ in (("emfile", "enfile", "eafnosupport") if (len(f_) == 1 or ctx.thorough) else ("emfile",))]
+            for fails, okind in plans:
                 srv = RefServer()
                 world = World(server=lambda conn, data: [srv.feed(conn.id, data)],
                               addrinfo=lambda h, p: [(_real.AF_INET, _real.SOCK_STREAM, _real.IPPROTO_TCP, "", ("10.0.0.%d" % i, p)) for i in range(naddr)])
                 sm = FakeSocketModule(world)
                 client = mk_client(Client, world, sm, cfg)
                 world.tag = 0
-                world.arm(connect_plan_to_faults(cfg, naddr, fails))
+                world.arm(connect_plan_to_faults(cfg, naddr, fails, kind=okind))
                 r1 = run_call(client, {"op": "get", "k": "k"})
                 evs = ledger_events(world, 0)
                 # cut the log at the end of the connect phase (before sendall)
@@ -222,8 +225,8 @@ def main(argv):
                 tags = []
                 if any(f.startswith("socket:") or f.startswith("nodelay:") or f.startswith("wrap:") for f in fails) and r1.startswith("exc:"):
                     tags.append("address-fallback")
-                case = {"cfg": cfg, "naddr": naddr, "faults": list(fails), "first_call": r1, "events": evs[:20], "tags": tags}
-                ctx.case((tuple(cfg.items()), naddr, fails), sample={k: v for k, v in case.items() if k != "tags"} if len(fails) == 2 and naddr == 3 and len(ctx.samples) < 3 else None)
+                case = {"cfg": cfg, "naddr": naddr, "faults": list(fails), "errno_of_the_faults": okind, "first_call": r1, "events": evs[:20], "tags": tags}
+                ctx.case((tuple(cfg.items()), naddr, fails, okind), sample={k: v for k, v in case.items() if k != "tags"} if len(fails) == 2 and naddr == 3 and len(ctx.samples) < 3 else None)
                 ctx.count("connect-plans")
                 ok = audit(ctx, world, client, case, "after the first call")
                 # fallback: if an address can yield a socket and no phase-2 fault, the call must succeed
@@ -349,6 +352,44 @@ def main(argv):
                     if r != "True":
                         ctx.violation("client not usable after the fault plan was exhausted", dict(case, final=r))
                     audit(ctx, world, client, case, "at the end")
+    # ---- part 2b: the address fallback on a RE-connection: the host resolves to addresses of two families; after a call failed, the reconnection
+    #      finds that no socket can be had for the address (family) that served before - the other one is used, as on a first connection -----------
+    for order in ("v6-first", "v4-first"):
+        for cfg in [c for c in cfgs2 if not c["unix"] and not c["keepalive"]][:4]:
+            for first_via in (0, 1):
+                for fail_api in ("socket", "setsockopt", "wrap_socket"):
+                    if (fail_api == "setsockopt" and not cfg["nodelay"]) or (fail_api == "wrap_socket" and not cfg["tls"]):
+                        continue
+                    fams = [_real.AF_INET6, _real.AF_INET] if order == "v6-first" else [_real.AF_INET, _real.AF_INET6]
+                    srv = RefServer()
+                    world = World(server=lambda conn, data: [srv.feed(conn.id, data)],
+                                  addrinfo=lambda h, p, _f=fams: [(_f[0], _real.SOCK_STREAM, _real.IPPROTO_TCP, "", ("addr0", p)), (_f[1], _real.SOCK_STREAM, _real.IPPROTO_TCP, "", ("addr1", p))])
+                    client = mk_client(Client, world, FakeSocketModule(world), cfg)
+                    case = {"cfg": cfg, "resolved_families": order, "first_connection_through_address": first_via, "on_reconnect_fails": fail_api + " for the address used before", "tags": []}
+                    ctx.case(("reconnect-fallback", tuple(cfg.items()), order, first_via, fail_api))
+                    ctx.count("reconnect-fallback")
+                    world.tag = 0
+                    if first_via == 1:
+                        world.arm({("socket", 0): mk_exc("eafnosupport")})        # the first address cannot be used from the start
+                    r1 = run_call(client, {"op": "set", "k": "a", "v": b"1", "nr": False})
+                    used1 = getattr(client.sock, "addr", None) or (world.conns[client.sock.wraps].addr if getattr(client.sock, "wraps", None) is not None else None)
+                    world.tag = 1
+                    world.arm({("recv", 0): mk_exc("reset")})
+                    r2 = run_call(client, {"op": "get", "k": "a"})
+                    world.tag = 2
+                    # on the reconnection the address that served before yields no socket (index of that address's attempt within this call)
+                    world.arm({(fail_api, 0): mk_exc("eafnosupport" if fail_api == "socket" else "oserror")} if first_via == 0 else {})
+                    r3 = run_call(client, {"op": "get", "k": "a"})
+                    res = [r1, r2, r3]
+                    if r1 != "True" or not r2.startswith("exc:"):
+                        ctx.count("reconnect-fallback scenario not established")
+                        continue
+                    if first_via == 0 and r3 != "b:31":
+                        ctx.violation("on a re-connection a usable later address was not used: the call failed although a socket could be created and connected",
+                                      dict(case, results=res), tags=["address-fallback", "reconnect"])
+                    elif first_via == 1 and r3 != "b:31":
+                        ctx.violation("the re-connection after a failed call did not work", dict(case, results=res), tags=["reconnect"])
+                    audit(ctx, world, client, case, "after the re-connection")
     # ---- part 3: calls that fail because of what the server ANSWERED (error lines, garbage, truncated replies), on pipelined commands whose
     #      remaining replies arrive later: whatever the client does with the connection, the next calls work ----
     from faultrun import MUTATIONS, Scripted
